@@ -213,7 +213,7 @@ def gen_typed(rng):
             n = rng.randint(0, 100000)
             text += "%d" % n
             total += n
-        return 4, text, total
+        return 4, _pad_components(text), total
     total = 0
     text = ""
     for unit, sh, hi in (("G", 30, 2), ("M", 20, 1000), ("K", 10, 1000), ("B", 0, 1000)):
@@ -225,7 +225,16 @@ def gen_typed(rng):
         n = rng.randint(0, 5000)
         text += "%d" % n
         total += n
-    return 5, text, total
+    return 5, _pad_components(text), total
+
+
+def _pad_components(text):
+    """Now and then (decided by a hash of the text, so that no random stream moves) the counts in front of unit letters are written
+    with leading zeros: `2m010s`, `0100K` - a count is a decimal number however many zeros lead it."""
+    import zlib
+    if zlib.crc32(text.encode()) % 4:
+        return text
+    return re.sub(r"(\d+)([ydhmsGMKBgmkb])", lambda m: "%0*d%s" % (len(m.group(1)) + 1 + zlib.crc32(m.group(0).encode()) % 2, int(m.group(1)), m.group(2)), text)
 
 
 BAD = {1: ["pizza", "2", "maybe"], 2: ["12q", "pizza", "0x", "1 2"], 4: ["123z", "1:2:3:", "1:2:3:4", "pizza", "5 m"],
